@@ -97,9 +97,11 @@ normalize(struct VideoFrame* acc, float inverse_norm)
 static int
 process_data(struct video_filter_s* self,
              struct VideoFrame** accumulator,
-             uint64_t* frame_count)
+             uint64_t* frame_count,
+             size_t* nbytes_read)
 {
     struct VideoFrame* in = 0;
+    *nbytes_read = 0;
     {
         struct slice slice = channel_read_map(&self->in, &self->reader);
         struct frame_iterator it = frame_iterator_init(&slice);
@@ -147,6 +149,7 @@ process_data(struct video_filter_s* self,
             }
         }
         channel_read_unmap(&self->in, &self->reader, slice_size_bytes(&slice));
+        *nbytes_read = slice_size_bytes(&slice);
     };
 
     if (self->sig_accumulator_reset) {
@@ -174,16 +177,21 @@ video_filter_thread(struct video_filter_s* self)
 {
     int ecode = 0;
     uint64_t frame_count = 0;
+    size_t nbytes_read = 0;
     struct VideoFrame* accumulator = 0;
     LOG("[stream %d] PROCESSING: Entering frame processing thread",
         self->stream_id);
     struct throttler throttler = throttler_init(10e-3f);
     while (!self->is_stopping) {
-        CHECK(process_data(self, &accumulator, &frame_count));
+        CHECK(process_data(self, &accumulator, &frame_count, &nbytes_read));
         throttler_wait(&throttler);
     }
     LOG("[stream: %d] PROCESSING: Flush", self->stream_id);
-    CHECK(process_data(self, &accumulator, &frame_count));
+    // Unread input that wraps around the end of the queue takes more than one
+    // read: keep going until the queue is drained.
+    do {
+        CHECK(process_data(self, &accumulator, &frame_count, &nbytes_read));
+    } while (nbytes_read);
 Finalize:
     if (accumulator)
         channel_write_unmap(self->out);
